@@ -132,7 +132,8 @@ def judge(ports, evs, expected, tables, R, case, family=False):
         R.count("optimum_not_computed")
         return False
     uni = bottleneck(evs["uniform"])
-    tol_b = STEP + sum(c01.instr_tol(a[0]) for a in ch) + EPS
+    # per instruction C01's tolerance of the alternative with the most (micro-op, port) pairs - whichever one the optimiser chose
+    tol_b = STEP + sum(max(c01.instr_tol(alt) for alt in a) for a in ch) + EPS
     nontrivial = uni > opt + 0.05
     for cfg in ("once", "twice"):
         b = bottleneck(evs[cfg])
